@@ -516,15 +516,15 @@ int
 main(int argc, char **argv) {
 	c13_init(argc, argv);
 	raw_n = vh_thorough ? 6 : 5;
-	c13_group("dns_trunc_hdr", grp_trunc_hdr);
-	c13_group("dns_get_name_len", grp_get_name_len);
-	c13_group("dns_labels2name", grp_labels2name);
-	c13_group("dns_sol_get_size", grp_sol_get_size);
-	c13_group("dns_sol_to_name", grp_sol_to_name);
-	c13_group("dns_info_get", grp_info_get);
-	c13_group("dns_validate", grp_validate);
-	c13_group("dns_question_get", grp_question_get);
-	c13_group("dns_rr_get", grp_rr_get);
-	c13_group("dns_rr_find", grp_rr_find);
+	c13_group("dns_trunc_hdr", grp_trunc_hdr, "dns_msg_info_get/truncated-header,dns_msg_validate/truncated-header,dns_msg_sequence_of_labels_get_name_len/truncated-header,dns_msg_sequence_of_labels2name/truncated-header,dns_msg_question_get_data/truncated-header,dns_msg_rr_get_data/truncated-header,dns_msg_rr_find/truncated-header");
+	c13_group("dns_get_name_len", grp_get_name_len, "dns_msg_sequence_of_labels_get_name_len");
+	c13_group("dns_labels2name", grp_labels2name, "dns_msg_sequence_of_labels2name");
+	c13_group("dns_sol_get_size", grp_sol_get_size, "SequenceOfLabelsGetSize");
+	c13_group("dns_sol_to_name", grp_sol_to_name, "SequenceOfLabelsToDomainName");
+	c13_group("dns_info_get", grp_info_get, "dns_msg_info_get");
+	c13_group("dns_validate", grp_validate, "dns_msg_validate");
+	c13_group("dns_question_get", grp_question_get, "dns_msg_question_get_data");
+	c13_group("dns_rr_get", grp_rr_get, "dns_msg_rr_get_data");
+	c13_group("dns_rr_find", grp_rr_find, "dns_msg_rr_find");
 	return (vh_finish());
 }
